@@ -240,40 +240,67 @@ Consec3(L, a, b, c) == \E i \in 1 .. Len(L) :
    L[i] = a /\ L[(i % Len(L)) + 1] = b /\ L[((i + 1) % Len(L)) + 1] = c
 MatchOK(res, M) == IF M = {} THEN res = -1 ELSE res \in M
 Lookups(s, q) ==
+  (* per-state tables, computed once (TLC evaluates a LET constant lazily and caches it) *)
+  LET LHF   == LiveHF(s)
+      HES   == [hf \in LHF |-> HFHes(s, hf)]
+      VTS   == [hf \in LHF |-> MapSeq(LAMBDA x : From(s, x), HES[hf])]
+      LHE   == LiveHE(s)
+      FR    == [h \in LHE |-> From(s, h)]
+      TOV   == [h \in LHE |-> To(s, h)]
+      HEFT(a, b) == {h \in LHE : FR[h] = a /\ TOV[h] = b}
+      LE    == LiveE(s)
+      PARS  == {<<At(s.edges, e)[1], At(s.edges, e)[2]>> : e \in
+                  {e \in LE : \E f \in LE : f # e /\ (At(s.edges, f) = At(s.edges, e) \/
+                                                       At(s.edges, f) = <<At(s.edges, e)[2], At(s.edges, e)[1]>>)}}
+      PAR(a, b)  == <<a, b>> \in PARS \/ <<b, a>> \in PARS
+      (* consecutive vertex triples of every halfface with at least two halfedges, and the inverse map *)
+      TRI   == [hf \in LHF |-> IF Len(HES[hf]) < 2 THEN {} ELSE
+                  LET L == VTS[hf] n == Len(L) IN {<<L[i], L[(i % n) + 1], L[((i + 1) % n) + 1]>> : i \in 1 .. n}]
+      TRIS  == UNION {TRI[hf] : hf \in LHF}
+      TMAP  == [tr \in TRIS |-> {hf \in LHF : tr \in TRI[hf]}]
+      C3SET(a, b, c) == IF <<a, b, c>> \in TRIS THEN TMAP[<<a, b, c>>] ELSE {}
+      (* all rotations of the vertex cycle of every halfface, and the inverse map *)
+      ROTS  == [hf \in LHF |-> LET L == VTS[hf] n == Len(L) IN {RotateTo(L, p) : p \in 1 .. n}]
+      RALL  == UNION {ROTS[hf] : hf \in LHF}
+      RMAP  == [vs \in RALL |-> {hf \in LHF : vs \in ROTS[hf]}]
+      RSET(vs) == IF vs \in RALL THEN RMAP[vs] ELSE {}
+      LC     == LiveC(s)
+      CLOSED == [c \in LC |-> ClosedSurface(s, At(s.cells, c))]
+      CEDGES == [c \in LC |-> {Full(h) : h \in Rng(CHESeq(s, c))}]
+  IN
   IF "fndhe" \in DOMAIN q /\ \E i \in DOMAIN q.fndhe :
-        LET r == q.fndhe[i] IN ~MatchOK(r[3], HEsFromTo(s, r[1], r[2]))
+        LET r == q.fndhe[i] IN ~MatchOK(r[3], HEFT(r[1], r[2]))
   THEN "find_halfedge"
   ELSE IF "fhf3" \in DOMAIN q /\ \E i \in DOMAIN q.fhf3 :
         LET r == q.fhf3[i]
-            M == {hf \in LiveHF(s) : Len(HFHes(s, hf)) >= 2 /\ Consec3(HFVerts(s, hf), r[1], r[2], r[3])}
-            Mx == {hf \in LiveHF(s) : Len(HFHes(s, hf)) = 3 /\ IsRotation(HFVerts(s, hf), <<r[1], r[2], r[3]>>)}
-            amb == ParallelEdges(s, r[1], r[2]) \/ ParallelEdges(s, r[2], r[3])
+            M == C3SET(r[1], r[2], r[3])
+            Mx == RSET(<<r[1], r[2], r[3]>>)
+            amb == PAR(r[1], r[2]) \/ PAR(r[2], r[3])
         IN \/ (r[4] # -1 /\ r[4] \notin M) \/ (~amb /\ M # {} /\ r[4] = -1)
            \/ (r[5] # -1 /\ r[5] \notin Mx) \/ (~amb /\ Mx # {} /\ r[5] = -1)
   THEN "find_halfface(vertices) / extensive"
   ELSE IF "fhf4" \in DOMAIN q /\ \E i \in DOMAIN q.fhf4 :
         LET r == q.fhf4[i]
-            M == {hf \in LiveHF(s) : Len(HFHes(s, hf)) >= 2 /\ Consec3(HFVerts(s, hf), r[1], r[2], r[3])}
-            Mx == {hf \in LiveHF(s) : Len(HFHes(s, hf)) = 4 /\ IsRotation(HFVerts(s, hf), <<r[1], r[2], r[3], r[4]>>)}
-            amb == ParallelEdges(s, r[1], r[2]) \/ ParallelEdges(s, r[2], r[3])
+            M == C3SET(r[1], r[2], r[3])
+            Mx == RSET(<<r[1], r[2], r[3], r[4]>>)
+            amb == PAR(r[1], r[2]) \/ PAR(r[2], r[3])
         IN \/ (r[5] # -1 /\ r[5] \notin M) \/ (~amb /\ M # {} /\ r[5] = -1)
            \/ (r[6] # -1 /\ r[6] \notin Mx) \/ (~amb /\ Mx # {} /\ r[6] = -1)
   THEN "find_halfface(4 vertices) / extensive"
   ELSE IF "fhfhe" \in DOMAIN q /\ \E i \in DOMAIN q.fhfhe :
         LET r == q.fhfhe[i]
-            M == {hf \in LiveHF(s) : r[1] \in Rng(HFHes(s, hf)) /\ r[2] \in Rng(HFHes(s, hf))}
+            M == {hf \in LHF : r[1] \in Rng(HES[hf]) /\ r[2] \in Rng(HES[hf])}
         IN ~MatchOK(r[3], M)
   THEN "find_halfface(halfedges)"
   ELSE IF \E i \in DOMAIN q.fhec :
         LET r == q.fhec[i]
-            ces == {Full(h) : h \in Rng(CHESeq(s, r[1]))}
-            M == {h \in HEsFromTo(s, r[2], r[3]) : Full(h) \in ces}
+            M == {h \in HEFT(r[2], r[3]) : Full(h) \in CEDGES[r[1]]}
         IN ~MatchOK(r[4], M)
   THEN "find_halfedge_in_cell"
   ELSE IF "fhfc" \in DOMAIN q /\ \E i \in DOMAIN q.fhfc :
         LET r == q.fhfc[i]
-            closed == ClosedSurface(s, At(s.cells, r[1]))
-            M == {hf \in Rng(At(s.cells, r[1])) : Len(HFHes(s, hf)) >= 2 /\ Consec3(HFVerts(s, hf), r[2], r[3], r[4])}
+            closed == CLOSED[r[1]]
+            M == C3SET(r[2], r[3], r[4]) \cap Rng(At(s.cells, r[1]))
         IN closed /\ ~MatchOK(r[5], M)
   THEN "find_halfface_in_cell"
   ELSE IF \E i \in DOMAIN q.ghfv :
